@@ -229,6 +229,9 @@ def check(program: Program, run: Run) -> None:
             nslots += 1
             if not isinstance(part.ctx, CtxV):
                 continue  # no-context calls are C04/C08's ctx-bypass
+            from .c06 import _renders_a_bare_name
+            if _renders_a_bare_name(program, c, part):
+                continue  # a child that prints a name and nothing else (a named window): it has no alias to print
             fc = field_class(part.ctx.fields["with_alias"])
             good = fc == "const" and part.ctx.fields["with_alias"] == Const(False)
             run.ob("C12/R2 operand slot turns alias printing off", f"{c.qualname}:{rp}", good,
